@@ -1,5 +1,6 @@
 (* STATIC clauses over the regenerated inventory (translators/sharedstate.py -> PqGen.SharedInv), re-proved on every run.
-   They are ADVISORY for the verdict: a clause that no longer holds is recorded, starts the site search, and only a concrete
+   These clauses are HEURISTICS over write sites / keyed memos; none of them is a premise the confluence theorems are instantiated
+   with (that premise is table_disciplined of GenOpReadsProofs.v, which is a hard obligation).  They are ADVISORY for the verdict: a clause that no longer holds is recorded, starts the site search, and only a concrete
    divergent run makes the check report a violation (a new module-level cache is not by itself a violation of "threads
    using ONE handle obtain what they obtain alone").  While they hold they are obligations like any other. *)
 From Coq Require Import NArith List Bool String.
